@@ -204,6 +204,17 @@ def _check_limit(ctx: Ctx, model) -> None:
             break
     ok = first is not None and norm(first.func.value) == "obj" and any(
         k.arg == "substitute" and isinstance(k.value, ast.Constant) and k.value.value is True for k in first.keywords)
+    # recomputed on every call: no return path may skip obj.to_sympy(substitute=True) (a memoised limit goes stale when a
+    # nested parameter changes)
+    from ..cfg import returns_not_passing
+    skipped = returns_not_passing(fi.node, lambda a: any(isinstance(c, ast.Call) and isinstance(c.func, ast.Attribute) and c.func.attr == "to_sympy"
+                                                       and norm(c.func.value) == "obj" for c in ast.walk(a)))
+    ctx.instance("R2.4", "_calculate_limit recomputes from the current expression on every call")
+    if skipped:
+        ctx.violation("R2.4", "_calculate_limit:memoised-path", fi.module, skipped[0],
+                      "_calculate_limit can return without evaluating obj.to_sympy(substitute=True): a cached limit is not the continuous extension once a (nested) parameter changes")
+    else:
+        ctx.ok()
     lim = [n for n in walk_ordered(fi.node) if isinstance(n, ast.Call) and dotted(n.func) == "limit"]
     ok = ok and len(lim) == 1 and len(lim[0].args) == 3 and norm(lim[0].args[0]) == "expr" and norm(lim[0].args[2]) == "f"
     if ok:
